@@ -432,6 +432,12 @@ class ValidatedBeforeWrite(MustWalk):
                 names = {x.id for x in ast.walk(s.iter) if isinstance(x, ast.Name)} - {"self"}
                 out = out | names
             return out
+        if isinstance(s, ast.Assign) and len(s.targets) == 1 and isinstance(s.targets[0], ast.Name) and isinstance(s.value, ast.Name):
+            was = st is not None and s.value.id in st
+            out = super().stmt(s, st)
+            if was and out is not None:
+                out = out | {s.targets[0].id}
+            return out
         return super().stmt(s, st)
 
     def event(self, role, node, st):
